@@ -131,6 +131,21 @@ def cargo_build(packages, flavour="native", extra_env=None, timeout=3600):
     return os.path.join(tdir, "x86_64-unknown-linux-gnu", "verif")
 
 
+def build_cli_asan(timeout=7200):
+    """isograph_cli with AddressSanitizer (nightly, opt-level 1): thorough leg of C08 - the compiler runs the unsafe
+    code of pico and of the intern crate in earnest."""
+    tdir = TARGET + "-cli-asan" + ("" if os.path.realpath(REPO) == "/repo" else "-alt")
+    env = {"RUSTFLAGS": f"--cfg {GUARD} -Zsanitizer=address -Cforce-frame-pointers=yes", "CARGO_TARGET_DIR": tdir,
+           "CARGO_PROFILE_DEV_DEBUG": "1", "CARGO_PROFILE_DEV_OPT_LEVEL": "1"}
+    cmd = ["cargo", "+nightly", "build", "--offline", "-p", "isograph_cli", "--target", "x86_64-unknown-linux-gnu",
+           "--manifest-path", os.path.join(REPO, "Cargo.toml")]
+    r = _run(cmd, cwd=REPO, env=env, timeout=timeout)
+    if r.returncode != 0:
+        sys.stderr.write(r.stderr.decode(errors="replace")[-3000:])
+        raise Inconclusive("cargo +nightly build of isograph_cli with -Zsanitizer=address failed")
+    return os.path.join(tdir, "x86_64-unknown-linux-gnu", "debug", "isograph_cli")
+
+
 def build_cli(timeout=3600):
     """The real isograph_cli from /repo's working tree with the guard on."""
     # VERIF_REPO (development aid: seeded-change trials on a scratch worktree) gets its own target dir so that
